@@ -217,6 +217,11 @@ class HBatch(BatchBase):
                 try:
                     probe.handle = nested_probe.asynq(env, others[0], -1 - len(env.probes))
                     probe.handle.value()
+                except BaseException:
+                    # the nested computation was aborted (e.g. by a hard-failing flush): its request stays pending
+                    # in a batch nobody awaits any more, which the scheduler will legitimately flush at some point
+                    env.abandoned += 1
+                    raise
                 finally:
                     env.waits.pop()
                     env.in_nested -= 1
@@ -248,12 +253,7 @@ class HItem(BatchItemBase):
     def _done(self, _):
         self.ncomp += 1
         env = self.env
-        open_windows = []
-        for e in env.events:
-            if e[0] == "before":
-                open_windows.append(e[1:])
-            elif e[0] == "after" and open_windows:
-                open_windows.pop()
+        open_windows = env.open_windows        # maintained by the before/after hooks
         mine = [self.batch.kind, self.batch.no]
         if mine not in open_windows and not any(b is self.batch for b in env.direct):
             env.v("C05.window", "item %r completed outside the before/after window of its batch's flush (open: %r)" % (self.uid, open_windows))
@@ -296,6 +296,9 @@ class Env(object):
         self.ndirect = 0
         self.on_step = None    # C16: harness-owned thread schedule (turnstile) hooks in here
         self.in_nested = 0     # > 0 while a flush body makes a synchronous call into asynq
+        self.flushed_once = set()
+        self.open_windows = [] # [kind, no] of scheduler flushes in progress, innermost last
+        self.abandoned = 0     # nested computations aborted mid-way (their requests stay pending, awaited by nobody)
         self.probes = []
         self.built = {}        # (tid, yid) -> the very object a yield statement yielded
         kinds = set()
@@ -822,9 +825,11 @@ def run_program(prog, check_c04=False, check_c06=False, reset=True, options=None
             env.events.append(["before", "debug", getattr(batch, "index", 0)])
             return
         key = ["before", batch.kind, batch.no]
-        if key in env.events:
+        if (batch.kind, batch.no) in env.flushed_once:
             env.v("C05.once", "batch %s#%d flushed twice by the scheduler" % (batch.kind, batch.no))
+        env.flushed_once.add((batch.kind, batch.no))
         env.events.append(key)
+        env.open_windows.append([batch.kind, batch.no])
         if not batch.items:
             env.v("C05.empty", "an empty batch was flushed")
         if batch.is_flushed():
@@ -842,7 +847,7 @@ def run_program(prog, check_c04=False, check_c06=False, reset=True, options=None
                 held[k] = held.get(k, 0) + 1
         if any(n >= 2 for n in held.values()):
             env.ov_span_flush += 1
-        if env.yield_only and not env.in_nested:
+        if env.yield_only and not env.in_nested and not env.abandoned:
             cands = {}
             for r in list(env.recs.values()):
                 if not r.yielded or r.handle is None or r.handle.is_computed():
@@ -873,6 +878,8 @@ def run_program(prog, check_c04=False, check_c06=False, reset=True, options=None
             env.events.append(["after", "debug", getattr(batch, "index", 0)])
             return
         env.events.append(["after", batch.kind, batch.no])
+        if env.open_windows:
+            env.open_windows.pop()
 
     sch.on_before_batch_flush.subscribe(before)
     sch.on_after_batch_flush.subscribe(after)
